@@ -110,6 +110,7 @@ fn replay_one(out: &mut Out, op: &str, a: &[Vec<u8>]) {
         "lang_matches" => out.case(op, &refs, || langid::lang_matches(a0, a1, a2 == b"1", refs.get(3).copied().unwrap_or(&[]) == b"1")),
         "li_cmp" => out.case(op, &refs, || langid::li_cmp(a0, a1)),
         "li_eq_str" => out.case(op, &refs, || langid::li_eq_str(a0, a1)),
+        "li_routes" => out.case(op, &refs, || langid::li_routes(a0)),
         "locale" => out.case(op, &refs, || locale::locale(a0)),
         "loc_canonicalize" => out.case(op, &refs, || locale::loc_canonicalize(a0)),
         "loc_roundtrip" => out.case(op, &refs, || locale::loc_roundtrip(a0)),
